@@ -376,7 +376,40 @@ def full_path_in_key(repo):
         "os.path.splitext(str(self.filename))[0]+") for x in shown), shown
 
 
+def _environment(repo, rep):
+    # the cache directory named by the environment is fixed when the package
+    # is imported: a relative name is made absolute there (a later chdir must
+    # not move the cache)
+    cfg = repo.module("chameleon.config")
+    vals = []
+    for n in ast.walk(cfg.tree):
+        if isinstance(n, (ast.Assign, ast.AnnAssign)):
+            tg = n.targets[0] if isinstance(n, ast.Assign) else n.target
+            if src(tg) == "CACHE_DIRECTORY" and n.value is not None:
+                vals.append(src(n.value))
+    ok = bool(vals) and all(v == "None" or v.startswith("os.path.abspath(")
+                            or v.startswith("os.path.realpath(")
+                            for v in vals)
+    rep.check(ok, "R15.3", "chameleon.config.CACHE_DIRECTORY", "the cache "
+              "directory is an absolute path from import time on",
+              construct="cache-dir-absolute", detail=str(vals))
+    # the package digest is a module-level hash object: every key starts
+    # from a *copy* of it (a key must not depend on the keys computed
+    # earlier in the process)
+    g = repo.func("chameleon.template.get_pkg_digest")
+    rets = [n for n in ast.walk(g.node) if isinstance(n, ast.Return)
+            and n.value is not None]
+    okc = bool(rets) and all(
+        isinstance(r_.value, ast.Call) and isinstance(
+            r_.value.func, ast.Attribute) and r_.value.func.attr == "copy"
+        for r_ in rets)
+    rep.check(okc, "R15.1", g.qualname, "get_pkg_digest hands out a copy of "
+              "the shared hash object", construct="pkg-digest-copy",
+              where=L.where(g), detail=str([src(r_) for r_ in rets]))
+
+
 def _store(repo, rep):
+    _environment(repo, rep)
     f = repo.func(LD + "ModuleLoader.build")
     site = f.qualname
     wh = L.where(f)
